@@ -72,7 +72,8 @@ def compact(number):
 def validate(number):
     """Check if the number is a valid ITIN. This checks the length, groups
     and formatting if it is present."""
-    match = _itin_re.search(clean(number, '').strip())
+    number = clean(number, '').strip()
+    match = _itin_re.search(number)
     if not match:
         raise InvalidFormat()
     area = match.group('area')
